@@ -125,3 +125,156 @@ Example safekeeper_example :
   = [([[1;2];[3;4]], Done); ([[1;2];[3;4]], Failed); ([[1;2];[3;4]], Failed); ([[1;2];[3;4]], Failed); ([], Failed);
      ([], Failed); ([[1;2];[3;4];[5]], Done); ([[1;2];[3;4];[5]], Done)].
 Proof. vm_compute. reflexivity. Qed.
+
+(** ------------------------------------------------------------------------------------------
+    C09 composed with C01 at Coq level (Compose/SafekeeperApply.v, Compose/SafekeeperApplyProofs.v):
+    the property stated for WHOLE PATCH APPLICATION instead of for sequences of read patterns.
+
+    [apply_patch_fresh_sk bs c entries hash heqb signed actual whitelist frames] is C01's
+    [apply_patch_fresh] (Patch/Patcher.v, same control structure) with every access to an old
+    file going through the safekeeper pool of this file's model: Transpose = the [PCopy] consumer;
+    ApplySingleFull = [range_loop] started at [bs * blockIndex] for [op_size] bytes, where the
+    op size is computed from pool.GetSize = the size in the PATCH's container (not the signed
+    size that [PRange] uses, not the size on disk) - so the range may start anywhere and reach
+    past the end of the signed file: a consumer of its own, [sk_range], with its own soundness
+    lemma ([sk_range_sound], from [sk_read_fixed]); bsdiff = lrufile (LRU cache of [entries]
+    chunks, file size taken from Seek(0, End) on the file ON DISK, Seek checked against it) whose
+    every cache miss is the chunk-read consumer [chunk_loop] for one chunk.
+    [signed] = the file contents the signature describes, by old file index; [actual] = what is
+    on disk now, [Some d] or [None] for a file that is not there.  [extended signed actual] =
+    some file on disk is longer than signed. *)
+From Wharf Require Import Bowl.Fresh Patch.Reinterp Patch.Stream Patch.Patcher
+     Compose.SafekeeperApply Compose.SafekeeperApplyProofs.
+
+(** For every block size that is a multiple of the read size, every LRU capacity, every
+    injective strong hash, every signed old build and every state of it on disk (one state per
+    signed file: bytes flipped, truncated, extended, emptied, missing), every whitelist and
+    EVERY frame list (well-formed or not): applying the frames through the safekeeper is an
+    error, or is exactly - tree, touched count, calls made - what applying them to the signed
+    build gives, or (third case) applying them to the signed build is itself an error and some
+    file on disk is longer than signed.  (A fuelled loop of the safekeeper model running dry
+    would surface as [Panic]; the proof excludes it at every consumer.) *)
+Theorem safekeeper_apply_sound :
+  forall (H : Type) (bs c m : N) (entries : nat) (hash : list byte -> H) (heqb : H -> H -> bool)
+         (signed : list (list byte)) (actual : list (option (list byte))) (whitelist : option (list Z)) (fs : list frame),
+    0 < c -> 0 < m -> bs = c * m ->
+    (forall a b, heqb (hash a) (hash b) = true -> a = b) ->
+    length actual = length signed ->
+    let rs := apply_patch_fresh_sk bs c entries hash heqb signed actual whitelist fs in
+    let rp := apply_patch_fresh (Z.of_N bs) signed whitelist fs in
+    rs = Err \/ rs = rp \/ (rp = Err /\ extended signed actual).
+Proof. exact (@safekeeper_apply_sound_lemma). Qed.
+Print Assumptions safekeeper_apply_sound.
+
+(** The third case cannot be dropped: the two-case statement "an error, or the result on the
+    signed build, for every frame list" is FALSE of the faithful model, and of the code (the
+    witness scaled to 64 KiB was replayed on the real patcher + NewSafeKeeper: signed file of
+    65536 bytes, 100 bytes appended on disk, bsdiff controls (add "", copy [7], seek 65540),
+    (add "", copy [8]), eof: "invalid seek to 65540, must be in [0,65536]" on the signed build,
+    no error and the output [7 8] through the safekeeper).  lrufile measures the file on disk
+    and a control with an empty add string seeks without reading, so no block is checked.
+    Only an ill-formed patch does that; see the next two theorems. *)
+Theorem safekeeper_apply_two_cases_refuted :
+  exists (signed : list (list byte)) (actual : list (option (list byte))) (fs : list frame) r,
+    length actual = length signed /\
+    apply_patch_fresh_sk 4 2 2 (fun b : list N => b) nlist_eqb signed actual None fs = Ok r /\
+    apply_patch_fresh 4 signed None fs = Err.
+Proof. exact safekeeper_apply_two_cases_refuted_lemma. Qed.
+Print Assumptions safekeeper_apply_two_cases_refuted.
+
+(** Whenever the frames apply to the signed build (i.e. for every patch that is valid for the
+    build the signature describes): an error, or exactly that result. *)
+Theorem safekeeper_apply_exact :
+  forall (H : Type) (bs c m : N) (entries : nat) (hash : list byte -> H) (heqb : H -> H -> bool)
+         (signed : list (list byte)) (actual : list (option (list byte))) (whitelist : option (list Z)) (fs : list frame),
+    0 < c -> 0 < m -> bs = c * m ->
+    (forall a b, heqb (hash a) (hash b) = true -> a = b) ->
+    length actual = length signed ->
+    apply_patch_fresh (Z.of_N bs) signed whitelist fs <> Err ->
+    apply_patch_fresh_sk bs c entries hash heqb signed actual whitelist fs = Err \/
+    apply_patch_fresh_sk bs c entries hash heqb signed actual whitelist fs = apply_patch_fresh (Z.of_N bs) signed whitelist fs.
+Proof. exact (@safekeeper_apply_exact_lemma). Qed.
+Print Assumptions safekeeper_apply_exact.
+
+(** Whatever the frames, when no file on disk is longer than signed (flips, truncation, emptied
+    and missing files): an error, or the result on the signed build. *)
+Theorem safekeeper_apply_sound_no_extension :
+  forall (H : Type) (bs c m : N) (entries : nat) (hash : list byte -> H) (heqb : H -> H -> bool)
+         (signed : list (list byte)) (actual : list (option (list byte))) (whitelist : option (list Z)) (fs : list frame),
+    0 < c -> 0 < m -> bs = c * m ->
+    (forall a b, heqb (hash a) (hash b) = true -> a = b) ->
+    length actual = length signed ->
+    (forall i s a, nth_error signed i = Some s -> nth_error actual i = Some (Some a) -> (length a <= length s)%nat) ->
+    apply_patch_fresh_sk bs c entries hash heqb signed actual whitelist fs = Err \/
+    apply_patch_fresh_sk bs c entries hash heqb signed actual whitelist fs = apply_patch_fresh (Z.of_N bs) signed whitelist fs.
+Proof. exact (@safekeeper_apply_no_extension_lemma). Qed.
+Print Assumptions safekeeper_apply_sound_no_extension.
+
+(** With C01's [diff_apply_fresh]: the patch WritePatch produces from (signed old build, new
+    build) - any differ satisfying [diff_ok], which C11 proves of the real one -, applied
+    through the safekeeper to whatever the old build has become on disk: an error, or every
+    file touched and the output tree IS the new build. *)
+Theorem safekeeper_apply_error_or_new_build :
+  forall (H : Type) (bs c m : N) (entries : nat) (hash : list byte -> H) (heqb : H -> H -> bool)
+         (differ : Z -> list byte -> list op) (old new : build) (algo quality : Z) (actual : list (option (list byte))),
+    0 < c -> 0 < m -> bs = c * m ->
+    (forall a b, heqb (hash a) (hash b) = true -> a = b) ->
+    wf_build new -> fits63 old -> fits63 new -> diff_ok (Z.of_N bs) (contents_of old) differ ->
+    length actual = length (contents_of old) ->
+    let rs := apply_patch_fresh_sk bs c entries hash heqb (contents_of old) actual None (write_patch differ algo quality old new) in
+    rs = Err \/
+    exists t touched trace,
+      rs = Ok (t, touched, trace) /\ touched = Z.of_nat (length (Fresh.files_of new)) /\
+      forall p, tlookup t p = tlookup new p.
+Proof. exact (@safekeeper_apply_new_build_lemma). Qed.
+Print Assumptions safekeeper_apply_error_or_new_build.
+
+(** An undamaged old build is never rejected, whatever the frames: the run through the
+    safekeeper IS the plain run (never an extra error, never a different result). *)
+Theorem safekeeper_apply_accepts_pristine :
+  forall (H : Type) (bs c m : N) (entries : nat) (hash : list byte -> H) (heqb : H -> H -> bool)
+         (signed : list (list byte)) (whitelist : option (list Z)) (fs : list frame),
+    0 < c -> 0 < m -> bs = c * m ->
+    (forall a b, heqb (hash a) (hash b) = true -> a = b) ->
+    (forall a, heqb (hash a) (hash a) = true) ->
+    apply_patch_fresh_sk bs c entries hash heqb signed (map Some signed) whitelist fs =
+    apply_patch_fresh (Z.of_N bs) signed whitelist fs.
+Proof. exact (@safekeeper_apply_accepts_pristine_lemma). Qed.
+Print Assumptions safekeeper_apply_accepts_pristine.
+
+(** the patcher's block-range consumer (any start that is a multiple of the read size, any
+    size): what a completed copy delivered is the signed bytes of that range, up to the end of
+    the signed file; from C09's block-level lemma *)
+Theorem patcher_range_consumer_sound :
+  forall (H : Type) (bs c m : N), 0 < c -> 0 < m -> bs = c * m ->
+  forall (hash : list byte -> H) (heqb : H -> H -> bool),
+    (forall a b, heqb (hash a) (hash b) = true -> a = b) ->
+  forall (signed actual : list byte) (p : pool) (fi off size : N) (r' : rd) (ps : list (list byte)) (o : outcome),
+    cache_ok bs signed actual (pcache p fi) -> off mod c = 0 ->
+    sk_range bs c hash heqb (skfile_of bs hash signed actual) p fi off size = (r', ps, o) ->
+    o <> OutOfFuel /\ cache_ok bs signed actual (rcache r') /\
+    (o = Done -> concat ps = Safekeeper.slice signed off size).
+Proof. exact (@sk_range_sound). Qed.
+Print Assumptions patcher_range_consumer_sound.
+
+(** executed at bs = 4, c = 2, hash = the block: the C01 example patch (a renamed file =>
+    Transpose, a file made of an old block plus fresh bytes => ApplySingleFull) on the pristine
+    old build gives the new build and is the plain result; truncated / extended / flipped /
+    emptied / missing old file: an error; a damaged file the patch does not read: the new
+    build; a bsdiff series with one and with two cache entries *)
+Example safekeeper_apply_example :
+  is_build (ex_run [Some [1;2;3;4;5;6]; Some [9]]) ex_new = true /\
+  ex_run [Some [1;2;3;4;5;6]; Some [9]] = apply_patch_fresh 4 (contents_of ex_old) None ex_patch /\
+  ex_run [Some [1;2;3;4;5]; Some [9]] = Err /\
+  ex_run [Some [1;2;3;4;5;6;6]; Some [9]] = Err /\
+  ex_run [Some [1;2;3;0;5;6]; Some [9]] = Err /\
+  ex_run [Some []; Some [9]] = Err /\
+  ex_run [None; Some [9]] = Err /\
+  is_build (ex_run [Some [1;2;3;4;5;6]; Some [8;8]]) ex_new = true /\
+  is_build (apply_patch_fresh_sk 4 2 1 ex_idh nlist_eqb [[1;2;3;4]] [Some [1;2;3;4]] None ex_bs_patch)
+           [([1], File [2;3;4;7;2;3;4])] = true /\
+  apply_patch_fresh_sk 4 2 2 ex_idh nlist_eqb [[1;2;3;4]] [Some [1;2;3;4]] None ex_bs_patch =
+  apply_patch_fresh 4 [[1;2;3;4]] None ex_bs_patch /\
+  apply_patch_fresh_sk 4 2 2 ex_idh nlist_eqb [[1;2;3;4]] [Some [1;2;3;5]] None ex_bs_patch = Err /\
+  apply_patch_fresh_sk 4 2 2 ex_idh nlist_eqb [[1;2;3;4]] [Some [1;2;3]] None ex_bs_patch = Err.
+Proof. exact safekeeper_apply_example_lemma. Qed.
